@@ -16,18 +16,24 @@ import CohdlVerif.Model.Coro
 -/
 namespace CohdlVerif.C01
 
-/-- content of an `ir.CodeBlock`: assignments, `_Transition`, `If` (branches are blocks), nested `CodeBlock`, `Nop` -/
+/-- content of an `ir.CodeBlock`: assignments, `If` (branches are blocks), nested `CodeBlock`, `Nop` -/
 inductive Item where
   | act (a : Nat)
-  | trans (s : Nat)
   | ite (c : Nat) (t e : Nat)
   | sub (b : Nat)
   | nop
   deriving Repr, DecidableEq
 
+/-- an `ir.CodeBlock`: `_content = (front transitions) ++ items`.  `addfront` is only ever used with `_Transition`s;
+    they are kept in their own list (most recent first = position 0) so that `append` positions are stable. -/
+structure Blk where
+  front : List Nat := []
+  items : List Item := []
+  deriving Repr, DecidableEq
+
 /-- compiler state -/
 structure CSt where
-  heap : Nat → List Item      -- `CodeBlock._content`
+  heap : Nat → Blk            -- `CodeBlock._content`
   root : Nat → Nat            -- `CodeBlock._root`
   next : Nat                  -- next unused block id
   states : List Nat           -- `StatemachineContext._states`: root blocks of the states, in creation order
@@ -40,31 +46,31 @@ namespace CSt
 
 /-- `StatemachineContext.__init__`: one state whose code is the empty block 0 -/
 def init : CSt :=
-  { heap := fun _ => [], root := fun b => b, next := 1, states := [0], brk := [], cont := [], ret := [], bad := false }
+  { heap := fun _ => {}, root := fun b => b, next := 1, states := [0], brk := [], cont := [], ret := [], bad := false }
 
 /-- `ir.CodeBlock([], parent=p)`: `none` = a new root block -/
 def newBlock (s : CSt) (parent : Option Nat) : Nat × CSt :=
   (s.next, { s with next := s.next + 1,
-                    heap := fun b => if b = s.next then [] else s.heap b,
+                    heap := fun b => if b = s.next then {} else s.heap b,
                     root := fun b => if b = s.next then (match parent with | none => s.next | some p => s.root p)
                                      else s.root b })
 
 /-- `CodeBlock.append` -/
 def append (s : CSt) (b : Nat) (it : Item) : CSt :=
-  { s with heap := fun x => if x = b then s.heap b ++ [it] else s.heap x }
+  { s with heap := fun x => if x = b then { s.heap b with items := (s.heap b).items ++ [it] } else s.heap x }
 
-/-- `CodeBlock.addfront` -/
-def addfront (s : CSt) (b : Nat) (it : Item) : CSt :=
-  { s with heap := fun x => if x = b then it :: s.heap b else s.heap x }
+/-- `CodeBlock.addfront(_Transition(t))` -/
+def addfront (s : CSt) (b : Nat) (t : Nat) : CSt :=
+  { s with heap := fun x => if x = b then { s.heap b with front := t :: (s.heap b).front } else s.heap x }
 
 /-- `for block in open_blocks: block.append(..)` -/
 def appendAll (s : CSt) (bs : List Nat) (it : Item) : CSt := bs.foldl (fun s b => s.append b it) s
 
 /-- `for block in open_blocks: block.addfront(..)` -/
-def addfrontAll (s : CSt) (bs : List Nat) (it : Item) : CSt := bs.foldl (fun s b => s.addfront b it) s
+def addfrontAll (s : CSt) (bs : List Nat) (t : Nat) : CSt := bs.foldl (fun s b => s.addfront b t) s
 
 /-- `StatemachineContext.at_start`: the code of the first state is still empty -/
-def atStart (s : CSt) : Bool := (s.heap 0).isEmpty
+def atStart (s : CSt) : Bool := (s.heap 0).front.isEmpty && (s.heap 0).items.isEmpty
 
 end CSt
 
@@ -122,7 +128,7 @@ def enterState (O : List Nat) (s : CSt) : Nat × Nat × CSt :=
     let (nb, s) := s.newBlock none
     let idx := s.states.length
     let s := { s with states := s.states ++ [nb] }
-    (idx, nb, s.addfrontAll O (.trans idx))
+    (idx, nb, s.addfrontAll O idx)
 
 /-- the `for continue_block in continue_result` loop of the `While` branch -/
 def contLoop (c : Option Nat) (body : Nat) : List Nat → CSt → List Nat → List Nat × CSt
@@ -166,7 +172,7 @@ def compile : Stmt → List Nat → CSt → List Nat × CSt
       let prevC := s.cont
       let prevB := s.brk
       let (ob, s) := compile b [body] { s with cont := [], brk := [] }
-      let s := s.addfrontAll ob (.trans idx)
+      let s := s.addfrontAll ob idx
       let contR := s.cont
       let brkR := s.brk
       let s := { s with cont := prevC, brk := prevB }
@@ -187,35 +193,62 @@ def compile : Stmt → List Nat → CSt → List Nat × CSt
       let res := ob ++ s.ret
       compile k res { s with ret := prevR }
 
-/-- export of a block as cons-style `Code`: nested blocks are spliced, `Nop` dropped; with `keepT = false`
-    transitions are dropped as well (`remove_transitions` of a single-state machine) -/
-def flatWith (keepT : Bool) (deref : Nat → Code → Code) : List Item → Code → Code
+
+/-- export of block items as cons-style `Code` in front of `k`: nested blocks are spliced, `Nop` dropped;
+    `deref b k` = code of block `b` followed by `k` (`none` = out of fuel) -/
+def flatItems (deref : Nat → Code → Option Code) : List Item → Code → Option Code
+  | [], k => some k
+  | .act a :: r, k => (flatItems deref r k).map (.act a)
+  | .ite c t e :: r, k =>
+      match deref t .nil, deref e .nil, flatItems deref r k with
+      | some ct, some ce, some cr => some (.ite c ct ce cr)
+      | _, _, _ => none
+  | .sub b :: r, k => (flatItems deref r k).bind (deref b)
+  | .nop :: r, k => flatItems deref r k
+
+def frontCode (keepT : Bool) : List Nat → Code → Code
   | [], k => k
-  | .act a :: r, k => .act a (flatWith keepT deref r k)
-  | .trans t :: r, k => if keepT then .trans t (flatWith keepT deref r k) else flatWith keepT deref r k
-  | .ite c t e :: r, k => .ite c (deref t .nil) (deref e .nil) (flatWith keepT deref r k)
-  | .sub b :: r, k => deref b (flatWith keepT deref r k)
-  | .nop :: r, k => flatWith keepT deref r k
+  | t :: r, k => if keepT then .trans t (frontCode keepT r k) else frontCode keepT r k
 
-/-- fuel = nesting depth of blocks -/
-def flatB (keepT : Bool) (heap : Nat → List Item) : Nat → Nat → Code → Code
-  | 0, _, k => k
-  | f+1, b, k => flatWith keepT (flatB keepT heap f) (heap b) k
+/-- fuel = nesting depth of blocks; with `keepT = false` transitions are dropped
+    (`remove_transitions` of a single-state machine) -/
+def flatB (keepT : Bool) (heap : Nat → Blk) : Nat → Nat → Code → Option Code
+  | 0, _, _ => none
+  | f+1, b, k => (flatItems (flatB keepT heap f) (heap b).items k).map (frontCode keepT (heap b).front)
 
-/-- `StatemachineContext.finish` + `Statemachine.as_case_when` -/
-def finish (O : List Nat) (s : CSt) : SM :=
-  if s.states.length = 1 then
-    ⟨s.states.map (fun b => flatB false s.heap s.next b .nil)⟩
-  else
-    let s := s.addfrontAll O (.trans 0)
-    ⟨s.states.map (fun b => flatB true s.heap s.next b .nil)⟩
+/-- `StatemachineContext.finish` + `Statemachine.as_case_when`; `none` = the fuel of the export did not suffice
+    for some block (never observed; the theorems are stated for the `some` case) -/
+def finish (O : List Nat) (s : CSt) : Option SM :=
+  let keepT := s.states.length != 1
+  let s := if keepT then s.addfrontAll O 0 else s
+  if (List.range s.next).all (fun b => (flatB keepT s.heap s.next b .nil).isSome) then
+    (s.states.mapM (fun b => flatB keepT s.heap s.next b .nil)).map SM.mk
+  else none
+
+/-- well-formedness of a coroutine body: `break` / `continue` only inside a loop of the same coroutine (`l`),
+    `return` only inside an awaited sub-coroutine (`c`), `await false` not inside an awaited sub-coroutine -/
+def wf : Stmt → Bool → Bool → Bool
+  | .skip, _, _ => true
+  | .act _ k, l, c => wf k l c
+  | .await _ k, l, c => wf k l c
+  | .awaitF, _, c => !c
+  | .ite _ t e k, l, c => wf t l c && wf e l c && wf k l c
+  | .while_ _ b k, l, c => wf b true c && wf k l c
+  | .brk, l, _ => l
+  | .cont, l, _ => l
+  | .ret, _, c => c
+  | .call b k, l, c => wf b false true && wf k l c
 
 def compileSt (p : Stmt) : List Nat × CSt := compile p [0] CSt.init
 
-/-- the mirror: coroutine body -> state machine -/
-def compileSM (p : Stmt) : SM := let r := compileSt p; finish r.1 r.2
+/-- the real compiler rejects the design (`continue` in the first state of its loop), or `break` / `continue` /
+    `return` occur outside a loop / call (their blocks would be lost) -/
+def rejected (p : Stmt) : Bool :=
+  let s := (compileSt p).2
+  s.bad || !s.brk.isEmpty || !s.cont.isEmpty || !s.ret.isEmpty
 
-/-- the real compiler rejects the design (`continue` in the first state of its loop) -/
-def rejected (p : Stmt) : Bool := (compileSt p).2.bad
+/-- the mirror: coroutine body -> state machine (`none`: rejected) -/
+def compileSM (p : Stmt) : Option SM :=
+  if rejected p then none else let r := compileSt p; finish r.1 r.2
 
 end CohdlVerif.C01
